@@ -93,6 +93,8 @@ class Check:
             self.inconclusive.append('%s: exploration stopped at a cap (%d paths, %.0fs); %d prefixes unexplored' % (label, r['paths'], r['wall_s'], r.get('unexplored_prefixes', 0)))
         if r['inconclusive_n']:
             self.inconclusive.append('%s: %d paths inconclusive, e.g. %s' % (label, r['inconclusive_n'], r['inconclusive'][:2]))
+        if r.get('di_broken'):
+            self.notes.append('%s: the code inspects the characters of element/attribute names; the data-independence argument does not apply, the result is relative to the name pool' % label)
         if r.get('probe_splits'):
             self.notes.append('%s: the code inspects the characters of a string the harness leaves unconstrained; on those paths the claim is reduced to a probe set of values (%d probe splits in one worker)' % (label, r['probe_splits']))
         if r['paths'] == 0:
